@@ -188,3 +188,33 @@ package ivg
 //@ contract (*DestinationLogger).RelArcTo
 //@   modifies tr.ivg.Destination
 //@   ensures [C07.log.RelArcTo] (= tr.ivg.Destination (ite (= d.Destination nil.Iface) (old tr.ivg.Destination) (cons.ivg.Destination (ivg.Destination.RelArcTo d.Destination rx ry xAxisRotation largeArc sweep x y) (old tr.ivg.Destination))))
+
+// ---- viewBox placement (C12), floats read as reals
+
+//@ contract (ViewBox).Size
+//@   mode math
+//@   ensures [C12.size] (and (= dx (- v.MaxX v.MinX)) (= dy (- v.MaxY v.MinY)))
+
+//@ contract (ViewBox).AspectMeet
+//@   mode math
+//@   requires (and (> v.MaxX v.MinX) (> v.MaxY v.MinY) (> dx 0.0) (> dy 0.0) (<= 0.0 ax) (<= ax 1.0) (<= 0.0 ay) (<= ay 1.0))
+//@   let vw (- v.MaxX v.MinX)
+//@   let vh (- v.MaxY v.MinY)
+//@   let w (- MaxX MinX)
+//@   let h (- MaxY MinY)
+//@   ensures [C12.meet.aspect] (= (* w vh) (* h vw))
+//@   ensures [C12.meet.within] (and (<= 0.0 MinX) (<= MaxX dx) (<= 0.0 MinY) (<= MaxY dy) (> w 0.0) (> h 0.0))
+//@   ensures [C12.meet.tight] (or (= w dx) (= h dy))
+//@   ensures [C12.meet.align] (and (= MinX (* ax (- dx w))) (= MinY (* ay (- dy h))))
+
+//@ contract (ViewBox).AspectSlice
+//@   mode math
+//@   requires (and (> v.MaxX v.MinX) (> v.MaxY v.MinY) (> dx 0.0) (> dy 0.0) (<= 0.0 ax) (<= ax 1.0) (<= 0.0 ay) (<= ay 1.0))
+//@   let vw (- v.MaxX v.MinX)
+//@   let vh (- v.MaxY v.MinY)
+//@   let w (- MaxX MinX)
+//@   let h (- MaxY MinY)
+//@   ensures [C12.slice.aspect] (= (* w vh) (* h vw))
+//@   ensures [C12.slice.covers] (and (<= MinX 0.0) (>= MaxX dx) (<= MinY 0.0) (>= MaxY dy))
+//@   ensures [C12.slice.tight] (or (= w dx) (= h dy))
+//@   ensures [C12.slice.align] (and (= MinX (* ax (- dx w))) (= MinY (* ay (- dy h))))
